@@ -8,7 +8,7 @@ import Proofs.TreeExact
 
   `run cfg input` is what `decode.Decode` (as called by interp `_decode`) does for a decoder program `cfg.body`
   written with FieldU / FieldRawLen / FieldValue* / FieldStruct / FieldArray / FramedFn / LimitedFn / RangeFn /
-  SeekAbs / SeekRel (with and without restore) / FieldFormat / FieldFormatLen / FieldFormatRange /
+  SeekAbs / SeekRel (with and without restore) / Format (inlined nested format) / FieldFormat / FieldFormatLen / FieldFormatRange /
   FieldFormatOrRaw(Len) / FieldFormatBitBuf / Field{Struct,Array}RootBitBufFn / FieldRootBitBuf / Fatalf /
   Errorf and data-dependent loops, on the buffer `input`, with Force / FillGaps / Options.Range as in `cfg`;
   failing programs keep their partial tree.  `WF` is the statement of the property.
@@ -82,6 +82,18 @@ theorem rangefn_negative_old_rule_witness :
     let r := doSubOld (.range 100) (-90) (execList [.comp false (.f 2) []]) ⟨List.replicate 16 false, false, false⟩ { pos := 8 }
     r.ok = true ∧ r.over = true ∧ r.kids.map (fun k => (k.start, k.len)) = [(100, 0)] ∧
     (doSub (.range 100) (-90) (execList [.comp false (.f 2) []]) ⟨List.replicate 16 false, false, false⟩ { pos := 8 }).err = .de := by
+  decide +kernel
+
+/-- `d.Format` (inline the root children of a nested format into the current value) into a STRUCT: a nested array root with
+    two elements of the same name is refused at the second element with a DecoderError — the struct keeps unique
+    names (the first element stays, the partial tree is WF); into an ARRAY both are accepted.  (`run_wf` covers `inl` for
+    all programs; this pins the behaviour seeded change S4-C03-1 broke.) -/
+def wInl (intoArr : Bool) : Cfg := ⟨false, false, 0, 0, intoArr, [.u (.f 1) 4, .inl true [.u (.f 2) 2, .u (.f 2) 2], .u (.f 3) 1]⟩
+theorem inline_into_struct_refuses_duplicates :
+    (match (run (wInl false) (List.replicate 16 true)).out with
+      | .tree t => t.i.err == .de && WF t && t.kids.length == 2 | _ => false) = true ∧
+    (match (run (wInl true) (List.replicate 16 true)).out with
+      | .tree t => t.i.err == .none && WF t && t.kids.length == 4 | _ => false) = true := by
   decide +kernel
 
 /-- In the tree a run returns — ANY run, also over-seeking or failing ones — the range of every unsigned field,
